@@ -47,7 +47,7 @@ func genText(t *rapid.T, allowEmpty, edge bool) string {
 	}
 }
 
-var intEdges = []int64{0, 1, -1, 7, 42, 127, -128, 255, 32767, 65535, math.MaxInt32, math.MinInt32, math.MaxInt64, math.MinInt64}
+var intEdges = []int64{0, 1, -1, 7, 42, 127, -128, 255, 32767, 65535, math.MaxInt32, math.MinInt32, math.MaxInt64, math.MinInt64, math.MaxInt64 - 1, math.MinInt64 + 1, -2, 1 << 53, 1<<53 + 1, math.MaxUint32, 1 << 32}
 
 func clampInt(k string, i int64) int64 {
 	switch k {
@@ -63,15 +63,12 @@ func clampInt(k string, i int64) int64 {
 		return int64(uint16(i))
 	case "uint32":
 		return int64(uint32(i))
-	case "uint", "uint64":
-		if i < 0 {
-			return -(i + 1)
-		}
 	}
+	// (uint / uint64: the 64 bits are kept as they are, so negative edges give values >= 2^63)
 	return i
 }
 
-var floatVals = []float64{0, 1, -1, 3.14159, 0.1, 1e21, 1e-7, 2.5, -273.15, 123456789.125}
+var floatVals = []float64{0, 1, -1, 3.14159, 0.1, 1e21, 1e-7, 2.5, -273.15, 123456789.125, math.MaxFloat64, math.SmallestNonzeroFloat64, 1e20, 1e-5, 123456789012345678, float64(math.MaxFloat32)}
 
 // genPrimVal: text / number / bool leaf.
 func genPrimVal(t *rapid.T, allowEmpty, edge bool) Val {
@@ -119,34 +116,36 @@ func genEncap(t *rapid.T) [][]string {
 }
 
 var opPool = []OpDesc{{K: "cmp", I: 1}, {K: "cmp", I: 2}, {K: "cmp", I: 3}, {K: "cmp", I: 4}, {K: "cmp", I: 5}, {K: "cmp", I: 6},
-	{K: "user", Text: "~=", Ctx: "approx"}, {K: "user", Text: ":=", Ctx: "assign"}}
+	{K: "user", Text: "~=", Ctx: "approx"}, {K: "user", Text: ":=", Ctx: "assign"}, {K: "uslice", Text: "=~", Ctx: "match"}}
 
 // TreeGen configures genNode.
 type TreeGen struct {
-	MaxDepth  int
-	MaxWidth  int
-	Kinds     []string // stack kinds for nested nodes
-	RootKinds []string
-	Leaf      func(t *rapid.T) Val
-	Conds     bool // conditions as elements
+	MaxDepth       int
+	MaxWidth       int
+	Kinds          []string // stack kinds for nested nodes
+	RootKinds      []string
+	Leaf           func(t *rapid.T) Val
+	Conds          bool // conditions as elements
 	CondExprStack  bool // condition expressions may be stacks
 	CondExprCond   bool // ... or conditions
 	InvalidConds   bool // some conditions lack keyword / expression
 	NotAsCondExpr  bool // allow NOT kind directly as condition expression
-	Options   bool // presentation options on nodes
-	Caps      bool
-	IndexOpts bool
-	Wraps     bool
-	MutexOpt  bool
-	NoNestAfter   bool // SetNoNesting(true) on a random fifth of the nodes AFTER their content is in ("never affects elements already present")
-	ReadOnlyNodes bool // SetReadOnly(true) on a random sixth of the nodes (stacks and Conditions) after assembly: neutral for every query
-	EqPolicies    bool // an accepting or rejecting equality closure on a random tenth of the nodes
-	WideRuns  bool // at most one node per tree additionally gets a run of 12..40 plain leaves (not counted against Budget)
-	Ambient   bool // neutral settings (identifier, category, aux, less, accepting closures, logger, mutex) on a random half of the nodes
-	FIFOOpt   bool
-	NilLeaves bool
-	EmptyStacks bool
-	Budget    int // max total nodes
+	Options        bool // presentation options on nodes
+	Caps           bool
+	IndexOpts      bool
+	Wraps          bool
+	MutexOpt       bool
+	NoNestAfter    bool // SetNoNesting(true) on a random fifth of the nodes AFTER their content is in ("never affects elements already present")
+	ReadOnlyNodes  bool // SetReadOnly(true) on a random sixth of the nodes (stacks and Conditions) after assembly: neutral for every query
+	RejectValidity bool // a rejecting validity closure on a random eighth of the NESTED stack nodes (never the root)
+	ZooLeaves      bool // one leaf in twelve is a value of an unusual Go type (genZooLeaf): only for checks that treat leaves as opaque
+	EqPolicies     bool // an accepting or rejecting equality closure on a random tenth of the nodes
+	WideRuns       bool // at most one node per tree additionally gets a run of 12..40 plain leaves (not counted against Budget)
+	Ambient        bool // neutral settings (identifier, category, aux, less, accepting closures, logger, mutex) on a random half of the nodes
+	FIFOOpt        bool
+	NilLeaves      bool
+	EmptyStacks    bool
+	Budget         int // max total nodes
 }
 
 // genUncomparable: a leaf whose Go type cannot be compared with == (a slice or a map): code that
@@ -159,6 +158,25 @@ func genUncomparable(t *rapid.T, tag int) Val {
 		return Val{K: "map", Keys: []string{"k" + itoa(tag)}, Elems: []Val{VI(int64(tag))}}
 	}
 	return Val{K: "slice", Elems: []Val{VI(int64(tag)), VI(2)}}
+}
+
+// genZooLeaf: leaves that are opaque to the library but awkward to handle generically: typed nil
+// pointers (depth 1..3), uncomparable values (slice, map), byte arrays held by value, zero values of
+// types with a String method, look-alike pointers (distinct instances with equal content).
+func genZooLeaf(t *rapid.T, tag int) Val {
+	switch rapid.IntRange(0, 6).Draw(t, "zoo") {
+	case 0:
+		return Val{K: "tnil", Depth: rapid.IntRange(1, 3).Draw(t, "tnil")}
+	case 1, 2:
+		return genUncomparable(t, tag)
+	case 3:
+		return Val{K: "array", Elems: []Val{{K: "uint8", I: 1}, {K: "uint8", I: int64(tag % 200)}}}
+	case 4:
+		return Val{K: "stringer", S: ""} // the zero value of a struct type with a String method
+	case 5:
+		return Val{K: "ptr", Depth: 1, Elems: []Val{VI(7)}} // every such leaf is a distinct pointer to an equal int
+	}
+	return Val{K: "ptr", Depth: 2, Elems: []Val{VS("same")}}
 }
 
 type treeState struct {
@@ -230,6 +248,14 @@ func (st *treeState) stackOpts(t *rapid.T, n *Node) {
 }
 
 func (st *treeState) stack(t *rapid.T, depth int, kinds []string) Node {
+	n := st.stack0(t, depth, kinds)
+	if st.g.RejectValidity && depth > 1 && rapid.IntRange(0, 7).Draw(t, "validrej") == 0 {
+		n.ValidRej = true
+	}
+	return n
+}
+
+func (st *treeState) stack0(t *rapid.T, depth int, kinds []string) Node {
 	g := st.g
 	n := Node{T: "stack", Kind: rapid.SampledFrom(kinds).Draw(t, "kind")}
 	st.budget--
@@ -269,6 +295,9 @@ func (st *treeState) elem(t *rapid.T, depth int) Node {
 		return LeafN(VNil())
 	}
 	st.budget--
+	if g.ZooLeaves && rapid.IntRange(0, 11).Draw(t, "zoo?") == 0 {
+		return LeafN(genZooLeaf(t, st.budget))
+	}
 	return LeafN(g.Leaf(t))
 }
 
